@@ -291,6 +291,8 @@ def validate_encodings(S, run, samples):
     s.add(run['pre'])
     bad = []
     for data, (real_line, ref_line) in zip(samples, nat):
+        if real_line == 'REAL PANIC':
+            continue        # left to the solver's no-panic query, which reports it with a replayed witness
         s.push()
         for i, x in enumerate(run['src']):
             if i < len(data):
@@ -419,7 +421,7 @@ def _wanted(want_names, qn):
     return qn in exact or any(qn.startswith(p) for p in prefixes)
 
 
-def run_suite(prop, tier, templates, want_names, describe, outside, n_samples):
+def run_suite(prop, tier, templates, want_names, describe, outside, n_samples, extra=None):
     """templates: [(name, template, min_len)]; want_names = (set of exact query names, tuple of prefixes)
     selects the queries this property claims.  Templates are processed in parallel worker processes.
     Returns the exit code."""
@@ -465,6 +467,19 @@ def run_suite(prop, tier, templates, want_names, describe, outside, n_samples):
         solver_s += r['solver_s']
         exec_s += r['exec_s']
         validated += r['validated']
+    extra_cov = {}
+    if extra is not None:
+        ex_res = extra(tier)
+        queries += ex_res['queries']
+        violations += ex_res['violations']
+        validated += ex_res['validated']
+        functions.update(ex_res['functions'])
+        solver_s += ex_res['solver_s']
+        exec_s += ex_res['exec_s']
+        stats['blocks'] += ex_res['blocks']
+        extra_cov = ex_res.get('coverage', {})
+        for k, v in ex_res.get('models_used', {}).items():
+            models_used[k] = models_used.get(k, 0) + v
     wall = time.time() - t0
     nq = len(queries)
     cov = {
@@ -486,6 +501,7 @@ def run_suite(prop, tier, templates, want_names, describe, outside, n_samples):
         'known_findings_seen': known_hits,
         'outside_claim': outside,
     }
+    cov.update(extra_cov)
     write_evidence(prop, tier, 'model_checking', cov, wall,
                    ['rustc nightly MIR dumps of /repo and of the reference lexer /verif/reflex',
                     'mirsym interpreter and std models; both encodings reproduce the native lexers on sampled inputs each run',
